@@ -113,14 +113,24 @@ class Connective(Condition):
         await postpone()
         while not self:
             with ExitStack() as stack:
-                for child in self._children:
-                    # we only need to wait for children which
-                    # are not True yet
-                    if child:
-                        continue
+                for child in self.__pending_children__():
                     stack.enter_context(child.__subscription__())
                 await Hibernate()  # hibernate until a child condition triggers
         return True
+
+    def __pending_children__(self):
+        """All basic conditions that are not True yet, including nested ones"""
+        for child in self._children:
+            # we only need to wait for children which
+            # are not True yet
+            if child:
+                continue
+            if isinstance(child, Connective):
+                # a nested connective is not triggered by itself,
+                # we have to wait for its children instead
+                yield from child.__pending_children__()
+            else:
+                yield child
 
     def __repr__(self):
         return f'{self.__class__.__name__}({", ".join(map(repr, self._children))})'
